@@ -30,7 +30,8 @@ const childTimeout = 60 * time.Second
 
 // infra reports a failure of the harness machinery (not of the property): exit-2 style.
 func infra(format string, a ...any) {
-	fmt.Printf("SELFTEST-FAILURE: "+format+"\n", a...)
+	msg := fmt.Sprintf(format, a...)
+	fmt.Printf("SELFTEST-FAILURE: %s\nSELFTEST-FAILURE (see above): %s\n", msg, strings.SplitN(msg, "\n", 2)[0])
 	os.Exit(3)
 }
 
@@ -77,6 +78,7 @@ type sysLine struct {
 var (
 	reEntry   = regexp.MustCompile(`^(\d+) +(\w+)\((.*)$`)
 	reResumed = regexp.MustCompile(`^(\d+) +<\.\.\. (\w+) resumed>(.*)$`)
+	reShort   = regexp.MustCompile(`, (\d+)\) += (\d+)$`)
 	reRet     = regexp.MustCompile(` = (-?\d+|\?|0x[0-9a-f]+)( .*)?$`)
 )
 
@@ -128,6 +130,7 @@ type threadTrace struct {
 	LastRet  string
 	LastOrd  int    // absolute per-thread ordinal of that call among calls of the same name
 	EFBIGOrd int    // absolute ordinal of the first write that failed with EFBIG (0 = none)
+	Short    bool   // a write stored some but not all of its bytes
 }
 
 type traceInfo struct {
@@ -137,8 +140,13 @@ type traceInfo struct {
 	KilledIn *threadTrace // writer thread whose pending call had no result when the process died
 }
 
-func analyse(b []byte, storeDir string) traceInfo {
-	lines, killed := parseLog(b)
+// analyse reads a log. killed = strace itself ended by SIGKILL (it passes the fate of its tracee
+// on); a "= ?" line alone is not enough, a thread caught inside a call by a normal exit shows the same.
+func analyse(b []byte, storeDir string, killed bool) traceInfo {
+	lines, sawPending := parseLog(b)
+	if killed && !sawPending {
+		infra("strace was killed but its log shows no call that never returned\n%s", logTail(b, 20))
+	}
 	ti := traceInfo{Killed: killed, Other: map[int]map[string]int{}}
 	byTid := map[int]*threadTrace{}
 	counts := map[int]map[string]int{}
@@ -216,6 +224,13 @@ func (tt *threadTrace) apply(l *sysLine, storeDir string) {
 			tt.TmpOpen = false
 		}
 	case "write":
+		if m := reShort.FindStringSubmatch(l.args); m != nil {
+			want, _ := strconv.Atoi(m[1])
+			got, _ := strconv.Atoi(m[2])
+			if got > 0 && got < want {
+				tt.Short = true
+			}
+		}
 		if strings.Contains(l.ret, "EFBIG") && tt.EFBIGOrd == 0 {
 			tt.EFBIGOrd = tt.LastOrd
 		}
@@ -279,6 +294,9 @@ func runChild(job childJob, work string, injSys string, injWhen int) childResult
 	var ee *exec.ExitError
 	if errors.As(werr, &ee) {
 		if ws, ok := ee.Sys().(syscall.WaitStatus); ok && ws.Signaled() {
+			if ws.Signal() != syscall.SIGKILL {
+				infra("traced child died of %v (inject %s:%d)\nstderr: %s", ws.Signal(), injSys, injWhen, se.String())
+			}
 			res.Signaled = true
 		}
 		res.ExitCode = ee.ExitCode()
@@ -286,10 +304,7 @@ func runChild(job childJob, work string, injSys string, injWhen int) childResult
 		infra("wait for strace: %v", werr)
 	}
 	res.Log, _ = os.ReadFile(logPath)
-	res.Trace = analyse(res.Log, job.Dir)
-	if res.Signaled != res.Trace.Killed {
-		infra("strace ended by signal = %v but its log says killed = %v\n%s", res.Signaled, res.Trace.Killed, logTail(res.Log, 20))
-	}
+	res.Trace = analyse(res.Log, job.Dir, res.Signaled)
 	if i := strings.Index(res.Stdout, "{"); i >= 0 {
 		var rep childReport
 		if json.Unmarshal([]byte(strings.TrimSpace(res.Stdout[i:])), &rep) == nil {
